@@ -3,6 +3,7 @@ import ast
 
 from ..model import (AnalysisError, FUNC_TYPES, U, call_attr, call_name, dotted, enclosing, enclosing_function, guard_texts, guards_ex,
                      short, walk_body, walk_local, ancestors, parent, const_str, kwarg)
+from .. import feat
 from ..util import params, find_calls, assigns_to, trace, stmt_of, has_exit, syn_dominates
 
 UT = "insights.client.utilities"
@@ -54,7 +55,7 @@ def r2_coverage(cx):
         cx.require(ok, dfn, "%s removes every path of %s, unconditionally and without early exit" % (d, other), construct=short(lp[0], 120) if lp else "def %s" % d)
         wfn = m.func(w, "C17.R2")
         wl = [s for s in wfn.body if isinstance(s, ast.For)]
-        ok = len(wl) == 1 and U(wl[0].iter) == mine and not has_exit(wl[0].body)
+        ok = len(wl) == 1 and U(wl[0].iter) == mine and not feat.loop_exits(wl[0])
         cx.require(ok, wfn, "%s loops over %s (the list the opposite deleter covers)" % (w, mine), construct="for %s in %s" % (U(wl[0].target), U(wl[0].iter)) if wl else "def %s" % w)
     cm = cx.repo.module("insights.client.constants")
     cc = cm.cls("InsightsConstants", "C17.R2")
@@ -87,18 +88,33 @@ def r3_symlink(cx):
         for x in _writes(fn):
             f = U(x.args[0])
             lp = enclosing(x, ast.For)
-            g = set(guard_texts(x, stop=lp))
-            fresh = ("os.path.lexists(%s)" % f, False) in g
-            relink = ("os.path.islink(%s)" % f, True) in g
-            if fresh:
-                cx.ok(x, "%s: written only when nothing (not even a dangling link) exists at the location" % w, construct="%s guarded by not lexists" % short(x))
-            elif relink:
-                rm = [r for r in find_calls(fn.body, name="os.remove") if U(r.args[0]) == f and syn_dominates(stmt_of(r), x) and set(guard_texts(r, stop=lp)) == g]
-                cx.require(bool(rm), x, "%s: a symlink is removed (os.remove) in the same branch before the write, so the write never follows it" % w,
-                           construct="%s under islink without preceding os.remove" % short(x) if not rm else "os.remove(%s); %s" % (f, short(x)))
+            if lp is None:
+                cx.bad(x, "%s: every write happens inside the loop over the marker locations" % w, construct=short(x))
+                continue
+            # path rule: on every path through the loop body that reaches this write, either nothing exists at the location
+            # (lexists is false) or the location is a symlink that has been removed (islink true, os.remove before the write)
+            try:
+                ps = feat.paths(lp.body)
+            except ValueError:
+                cx.unknown(lp, "too many paths in %s" % w)
+                continue
+            bad_path, seen_paths = None, 0
+            for trail, end in ps:
+                idx = [i for i, ev in enumerate(trail) if ev[0] == "stmt" and any(n is x for n in ast.walk(ev[1]))]
+                if not idx:
+                    continue
+                seen_paths += 1
+                before = trail[:idx[0]]
+                fresh = ("cond", "os.path.lexists(%s)" % f, False) in before
+                relink = ("cond", "os.path.islink(%s)" % f, True) in before and \
+                    any(ev[0] == "stmt" and any(isinstance(n, ast.Call) and call_name(n) == "os.remove" and n.args and U(n.args[0]) == f for n in ast.walk(ev[1])) for ev in before)
+                if not (fresh or relink):
+                    bad_path = before
+            if bad_path is None and seen_paths:
+                cx.ok(x, "%s: on each of the %d paths reaching the write, nothing exists at the location or the symlink there was removed first" % (w, seen_paths), construct=short(x))
             else:
                 cx.bad(x, "%s: every write is guarded by 'not lexists' or by 'islink' with a preceding os.remove (a planted symlink would be followed)" % w,
-                       construct="%s guarded by %s" % (short(x), sorted(g)))
+                       construct="%s reached via %s" % (short(x), [(e[1], e[2]) if e[0] == "cond" else short(e[1], 40) for e in (bad_path or [])]))
 
 
 def _mentions_marker(e):
